@@ -41,6 +41,7 @@ inductive HostBody where
   | echo                  -- log the call, return the list of extracted parameters
   | fail                  -- log the call, return a function error
   | const (v : Value)     -- log the call, return `v`
+  | first                 -- log the call, return the first extracted parameter (or null)
 deriving Repr, Inhabited
 
 inductive FnKind where
@@ -418,6 +419,7 @@ def applyFn (ctx : Ctx) (name : String) (k : FnKind) (this : Option Value)
     | .echo => pure (.list ps)
     | .fail => M.throw .functionError
     | .const v => pure v
+    | .first => pure (ps.head?.getD .null)
 
 /-! ## Call nodes -/
 
